@@ -3,7 +3,7 @@ From Coq Require Import String Ascii List Bool Arith Lia.
 From KV Require Import Lib.Str Lib.StrOps Lib.ODict Gen.Tags Gen.Pipeline Model.Engine Model.EngineSM Model.EngineDomain
                        Model.EngineDomain16 Spec.RefExpand Spec.RefExpand16
                        Proofs.StrProofs Proofs.EngineStr Proofs.EngineRepl Proofs.EngineC17 Proofs.EnginePipe Proofs.EngineC16
-                       Proofs.EngineBlock Proofs.EngineTT Proofs.TagFree Proofs.EngineTrans.
+                       Proofs.EngineBlock Proofs.EngineTT Proofs.EngineTps Proofs.TagFree Proofs.EngineTrans.
 Import ListNotations.
 Open Scope string_scope.
 Open Scope list_scope.
@@ -394,11 +394,11 @@ End Whole.
 
 (* the same against the table: the reference the check computes (ref16_rows) *)
 Theorem engine16_is_ref_table tt structs protos msgs m dict t :
-  tt_model tt structs protos msgs = Some m -> sm_tps m = tps_of (table_of tt) -> dict_ok dict = true -> in_grammar16 t = true ->
+  tt_model tt structs protos msgs = Some m -> dict_ok dict = true -> in_grammar16 t = true ->
   wf16_rows tt structs protos msgs t = true ->
   engine16 m dict t = Some (ref16_rows tt structs protos msgs t).
 Proof.
-  intros Hm Htps Hd Hg Hw. unfold wf16_rows, ref16_rows in *.
-  rewrite <- (Proofs.EngineTT.model_elements tt structs protos msgs m Hm Htps) in *.
+  intros Hm Hd Hg Hw. unfold wf16_rows, ref16_rows in *.
+  rewrite <- (Proofs.EngineTps.model_elements_full tt structs protos msgs m Hm) in *.
   apply engine16_is_ref; assumption.
 Qed.
